@@ -55,7 +55,7 @@ func H20d() {
 }
 
 func H20d_twin() {
-	u, err := IssuerIdToWellKnown("https://nuts.nl/"+vString(1), AuthzServerWellKnown, true)
+	u, err := IssuerIdToWellKnown("https://nuts.nl/"+string([]byte{'a' + byte(vRange(0, 25))}), AuthzServerWellKnown, true)
 	if err == nil && u.Path != "" {
 		vAssert(false, "H20d_twin.reach: reachable")
 	}
